@@ -82,17 +82,17 @@ type Requirement struct {
 }
 
 type UserType struct {
-	Name        string  `json:"name"`
-	Kind        string  `json:"kind"` // type | result | alias
-	Def         *Type   `json:"def"`
-	Val         *Val    `json:"val,omitempty"` // alias validations
+	Name string `json:"name"`
+	Kind string `json:"kind"` // type | result | alias
+	Def  *Type  `json:"def"`
+	Val  *Val   `json:"val,omitempty"` // alias validations
 	// AliasDefault: a default declared on a primitive alias type itself (canonical leaf). Only used by types whose
 	// every use carries a default of its own: the attribute-level default is the one that counts.
-	AliasDefault any `json:"alias_default,omitempty"`
-	Views       []*View `json:"views,omitempty"`
-	ContentType string  `json:"content_type,omitempty"`
-	Extend      string  `json:"extend,omitempty"`
-	Reference   string  `json:"reference,omitempty"`
+	AliasDefault any     `json:"alias_default,omitempty"`
+	Views        []*View `json:"views,omitempty"`
+	ContentType  string  `json:"content_type,omitempty"`
+	Extend       string  `json:"extend,omitempty"`
+	Reference    string  `json:"reference,omitempty"`
 	// ErrorNameAttr is the attribute carrying the error name (struct:error:name) when the
 	// type is shared by several errors.
 	ErrorNameAttr string `json:"error_name_attr,omitempty"`
@@ -216,12 +216,15 @@ func (l Loc) WireName() string {
 }
 
 type HTTP struct {
-	Routes    []Route `json:"routes"`
-	Path      []Loc   `json:"path,omitempty"`
-	Query     []Loc   `json:"query,omitempty"`
-	Headers   []Loc   `json:"headers,omitempty"`
-	Cookies   []Loc   `json:"cookies,omitempty"`
-	MapParams string  `json:"map_params,omitempty"` // attr name mapped with MapParams ("" none, "*" whole payload)
+	Routes  []Route `json:"routes"`
+	Path    []Loc   `json:"path,omitempty"`
+	Query   []Loc   `json:"query,omitempty"`
+	Headers []Loc   `json:"headers,omitempty"`
+	Cookies []Loc   `json:"cookies,omitempty"`
+	// ExplicitPathParams: path parameters (wire names of Path entries) that the design ALSO declares with Param(...)
+	// after the routes, in this order (the others are declared by the route wildcards alone)
+	ExplicitPathParams []string `json:"explicit_path_params,omitempty"`
+	MapParams          string   `json:"map_params,omitempty"` // attr name mapped with MapParams ("" none, "*" whole payload)
 	// Body: "" = auto (all unmapped attributes), "attr:<name>" = Body("name"), "empty" = Body(Empty),
 	// "custom" = Body(func(){ Attribute(..) }) listing BodyAttrs
 	Body          string          `json:"body,omitempty"`
